@@ -38,7 +38,33 @@ def _is360(n: ast.AST) -> bool:
     return isinstance(n, ast.Constant) and type(n.value) in (int, float) and n.value == 360
 
 
-def classify_rhs(v: ast.AST) -> str:
+def _single_bindings(fn: ast.AST | None) -> dict[str, ast.AST]:
+    """Local names of a function that are bound exactly once, by a plain `name = expr` (not a parameter, no
+    augmented assignment, not a loop/with/tuple target): their value can be substituted at a use."""
+    if fn is None:
+        return {}
+    count: dict[str, int] = {}
+    val: dict[str, ast.AST] = {}
+    params = {a.arg for a in fn.args.posonlyargs + fn.args.args + fn.args.kwonlyargs}
+    for node in ast.walk(fn):
+        if isinstance(node, (ast.Global, ast.Nonlocal)):
+            for n in node.names:
+                count[n] = count.get(n, 0) + 2
+        for t in _targets(node):
+            if isinstance(t, ast.Name):
+                count[t.id] = count.get(t.id, 0) + 1
+                if isinstance(node, ast.Assign) and len(node.targets) == 1 and node.targets[0] is t:
+                    val[t.id] = node.value
+                elif isinstance(node, ast.AnnAssign) and node.target is t and node.value is not None:
+                    val[t.id] = node.value
+                else:
+                    count[t.id] += 1
+    return {n: v for n, v in val.items() if count.get(n) == 1 and n not in params}
+
+
+def classify_rhs(v: ast.AST, env: dict[str, ast.AST] | None = None, depth: int = 0) -> str:
+    if isinstance(v, ast.Name) and env and v.id in env and depth < 4:
+        return classify_rhs(env[v.id], env, depth + 1)      # `p = e % 360 % 360; ang._pitch = p`
     if isinstance(v, ast.BinOp) and isinstance(v.op, ast.Mod) and _is360(v.right):
         inner = v.left
         if isinstance(inner, ast.BinOp) and isinstance(inner.op, ast.Mod) and _is360(inner.right):
@@ -52,17 +78,18 @@ def classify_rhs(v: ast.AST) -> str:
 
 
 def _walk_funcs(tree: ast.AST):
-    """Yield (class_name or None, func_name or None, node) for every node (innermost function wins for stores)."""
-    def walk(node, cls, fn):
+    """Yield (class_name or None, outermost function name or None, innermost function node or None, node)."""
+    def walk(node, cls, fn, inner):
         for ch in ast.iter_child_nodes(node):
             if isinstance(ch, ast.ClassDef):
-                yield from walk(ch, ch.name, None)
+                yield from walk(ch, ch.name, None, None)
             elif isinstance(ch, (ast.FunctionDef, ast.AsyncFunctionDef)):
-                yield from walk(ch, cls, ch.name if fn is None else fn)
+                yield cls, fn, inner, ch
+                yield from walk(ch, cls, ch.name if fn is None else fn, ch)
             else:
-                yield cls, fn, ch
-                yield from walk(ch, cls, fn)
-    yield from walk(tree, None, None)
+                yield cls, fn, inner, ch
+                yield from walk(ch, cls, fn, inner)
+    yield from walk(tree, None, None, None)
 
 
 def _targets(node: ast.AST):
@@ -107,12 +134,15 @@ def angle_sites() -> tuple[list[tuple[str, str, int]], dict]:
         tree = ast.parse(text)
         if rel != 'math.py':
             info['other_files_with_angle_slots'].append(rel)
-        for cls, fn, node in _walk_funcs(tree):
+        envs: dict[int, dict[str, ast.AST]] = {}
+        for cls, fn, fnode, node in _walk_funcs(tree):
+            if id(fnode) not in envs:
+                envs[id(fnode)] = _single_bindings(fnode)
             for t in _targets(node):
                 if isinstance(t, ast.Attribute) and t.attr in FIELDS:
                     where = f'{rel}:{cls}.{fn}:{t.attr}'
                     if isinstance(node, ast.Assign) and len(node.targets) == 1 and node.targets[0] is t:
-                        sites.append((where, classify_rhs(node.value), node.lineno))
+                        sites.append((where, classify_rhs(node.value, envs[id(fnode)]), node.lineno))
                     elif isinstance(node, ast.AnnAssign) and node.value is None:
                         continue        # a bare annotation `_pitch: float` in a class body stores nothing
                     else:
@@ -149,8 +179,193 @@ def angle_sites() -> tuple[list[tuple[str, str, int]], dict]:
     return sites, info
 
 
+# ---------------------------------------------------------------------------------------------- angle creations
+ANGLE_CTORS = {'Angle', 'Py_Angle', 'FrozenAngle', 'Py_FrozenAngle'}
+ANGLE_CLASSES = ('AngleBase', 'Angle', 'FrozenAngle')
+SLOT_OF_PROP = {'pitch': '_pitch', 'yaw': '_yaw', 'roll': '_roll'}
+
+
+def _stored_slot(t: ast.AST, name: str, setters: set[str]) -> str | None:
+    """`name._pitch = ...` or (through a property setter of Angle that stores the slot) `name.pitch = ...`."""
+    if isinstance(t, ast.Attribute) and isinstance(t.value, ast.Name) and t.value.id == name:
+        if t.attr in FIELDS:
+            return t.attr
+        if t.attr in setters:
+            return SLOT_OF_PROP[t.attr]
+    return None
+
+
+def must_store(stmts: list[ast.stmt], name: str, setters: set[str], have: frozenset[str], exits: list[tuple[ast.AST | None, frozenset[str]]]):
+    """Slots of `name` definitely stored on every path through stmts.  Returns the set at fall-through or None when
+    every path leaves; every `return e` is appended to exits as (e, set).  Stores inside loops / try / with bodies do not
+    count (they may not execute); a `raise` ends its path."""
+    for st in stmts:
+        if isinstance(st, ast.Return):
+            exits.append((st.value, have))
+            return None
+        if isinstance(st, ast.Raise):
+            return None
+        if isinstance(st, ast.If):
+            a = must_store(st.body, name, setters, have, exits)
+            b = must_store(st.orelse, name, setters, have, exits)
+            if a is None and b is None:
+                return None
+            have = b if a is None else a if b is None else (a & b)
+            continue
+        if isinstance(st, (ast.Assign, ast.AnnAssign)):
+            for t in _targets(st):
+                sl = _stored_slot(t, name, setters)
+                if sl:
+                    have = have | {sl}
+                if isinstance(t, ast.Name) and t.id == name and have:
+                    have = frozenset()           # the name is rebound: earlier stores went to another object
+            continue
+        if isinstance(st, (ast.For, ast.While, ast.Try, ast.With, ast.AsyncFor, ast.AsyncWith, ast.Match)):
+            sub: list = []
+            for f in ('body', 'orelse', 'finalbody'):
+                must_store(getattr(st, f, []) or [], name, setters, have, sub)
+            for h in getattr(st, 'handlers', []):
+                must_store(h.body, name, setters, have, sub)
+            for c in getattr(st, 'cases', []):
+                must_store(c.body, name, setters, have, sub)
+            exits.extend(sub)
+            continue
+    return have
+
+
+def _all_functions(tree: ast.Module):
+    """(class name or None, function node) for every function of math.py, nested ones included."""
+    def walk(node, cls):
+        for ch in ast.iter_child_nodes(node):
+            if isinstance(ch, ast.ClassDef):
+                yield from walk(ch, ch.name)
+            elif isinstance(ch, (ast.FunctionDef, ast.AsyncFunctionDef)):
+                yield cls, ch
+                yield from walk(ch, cls)
+            else:
+                yield from walk(ch, cls)
+    yield from walk(tree, None)
+
+
+def _own_nodes(fn: ast.AST):
+    """Nodes of a function body, not descending into nested functions/classes."""
+    stack = list(ast.iter_child_nodes(fn))
+    while stack:
+        n = stack.pop()
+        yield n
+        if not isinstance(n, (ast.FunctionDef, ast.AsyncFunctionDef, ast.ClassDef, ast.Lambda)):
+            stack.extend(ast.iter_child_nodes(n))
+
+
+def angle_creations(tree: ast.Module) -> tuple[list[tuple[str, str, int]], dict]:
+    """Every expression of math.py that creates an Angle/FrozenAngle object, classified:
+         ViaCtor     Angle(...)/FrozenAngle(...)/cls(...)/type(self)(...): slots are written by the constructor's store sites
+         RawToAngle  X.__new__(X) handed directly to MatrixBase._to_angle(), which stores all three slots on every path
+         RawStored   X.__new__(X) bound to a local name whose three slots are stored on every path to `return name`
+         CreateOther anything else (an uninitialised or partly initialised angle may escape)
+       plus the facts `_to_angle` / `Angle.__init__` / `FrozenAngle.__new__` store all three slots on every path."""
+    out: list[tuple[str, str, int]] = []
+    info: dict = {}
+    ang = next((c for c in tree.body if isinstance(c, ast.ClassDef) and c.name == 'Angle'), None)
+    if ang is None:
+        raise TranslateError('class Angle not found')
+    # property setters of Angle that store exactly their own slot
+    setters: set[str] = set()
+    for f in ang.body:
+        if isinstance(f, ast.FunctionDef) and any(isinstance(d, ast.Attribute) and d.attr == 'setter' for d in f.decorator_list):
+            stores = [t.attr for n in ast.walk(f) for t in _targets(n) if isinstance(t, ast.Attribute) and t.attr in FIELDS]
+            if f.name in SLOT_OF_PROP and stores == [SLOT_OF_PROP[f.name]]:
+                setters.add(f.name)
+    info['angle_property_setters'] = sorted(setters)
+
+    def is_raw_new(e: ast.AST, cls: str | None) -> bool:
+        """X.__new__(X) for an angle class X, cls.__new__(cls) / object.__new__(cls) inside an angle class"""
+        if not (isinstance(e, ast.Call) and isinstance(e.func, ast.Attribute) and e.func.attr == '__new__' and len(e.args) == 1
+                and isinstance(e.args[0], ast.Name)):
+            return False
+        a = e.args[0].id
+        if a in ANGLE_CTORS:
+            return True
+        return a == 'cls' and cls in ANGLE_CLASSES
+
+    def is_ctor(e: ast.AST, cls: str | None) -> bool:
+        if not isinstance(e, ast.Call):
+            return False
+        f = e.func
+        if isinstance(f, ast.Name):
+            return f.id in ANGLE_CTORS or (f.id == 'cls' and cls in ANGLE_CLASSES)
+        if isinstance(f, ast.Call) and isinstance(f.func, ast.Name) and f.func.id == 'type' and cls in ANGLE_CLASSES:
+            return True
+        return False
+
+    complete: dict[str, bool] = {}
+    for cls, fn in _all_functions(tree):
+        where = f'{cls}.{fn.name}' if cls else fn.name
+        # the initialisers themselves
+        target = None
+        if (cls, fn.name) == ('MatrixBase', '_to_angle'):
+            target = fn.args.args[1].arg if len(fn.args.args) > 1 else None
+        elif (cls, fn.name) == ('Angle', '__init__'):
+            target = fn.args.args[0].arg
+        if target is not None:
+            exits: list = []
+            fall = must_store(fn.body, target, setters, frozenset(), exits)
+            sets = [h for e, h in exits if e is None or (isinstance(e, ast.Name) and e.id == target)]
+            if fall is not None:
+                sets.append(fall)
+            complete[where] = bool(sets) and all(h >= set(FIELDS) for h in sets)
+        raw_used: set[int] = set()
+        parent: dict[int, ast.AST] = {}
+        for n in _own_nodes(fn):
+            for ch in ast.iter_child_nodes(n):
+                parent[id(ch)] = n
+        for n in _own_nodes(fn):
+            if is_ctor(n, cls):
+                out.append((where, 'ViaCtor', n.lineno))
+            elif is_raw_new(n, cls):
+                par = parent.get(id(n))
+                kind = 'CreateOther'
+                if isinstance(par, ast.Call) and isinstance(par.func, ast.Attribute) and par.func.attr == '_to_angle' \
+                        and par.args and par.args[0] is n:
+                    kind = 'RawToAngle'
+                elif isinstance(par, ast.Assign) and len(par.targets) == 1 and isinstance(par.targets[0], ast.Name) and par.value is n:
+                    nm = par.targets[0].id
+                    exits = []
+                    fall = must_store(fn.body, nm, setters, frozenset(), exits)
+                    rets = [h for e, h in exits if isinstance(e, ast.Name) and e.id == nm]
+                    # the object may only leave through `return name`; any other use of the name (argument, store
+                    # elsewhere) besides attribute stores on it is not understood
+                    uses = [u for u in _own_nodes(fn) if isinstance(u, ast.Name) and u.id == nm and isinstance(u.ctx, ast.Load)]
+                    ok_uses = all(isinstance(parent.get(id(u)), (ast.Attribute, ast.Return)) for u in uses)
+                    if rets and all(h >= set(FIELDS) for h in rets) and ok_uses and fall is None:
+                        kind = 'RawStored'
+                out.append((where, kind, n.lineno))
+    for need in ('MatrixBase._to_angle', 'Angle.__init__'):
+        if need not in complete:
+            raise TranslateError(f'{need} not found')
+    info['stores_all_slots_on_every_path'] = complete
+    if not out:
+        raise TranslateError('no expression creating an Angle found in math.py')
+    return out, info
+
+
 # ---------------------------------------------------------------------------------------------- format_float
 def format_cfg(tree: ast.Module) -> dict:
+    """The pipeline shape, or - when format_float is written in a way this translator does not know - a configuration
+    marked `recognised: False` (all flags off), so that the named obligation `format_float_pipeline_recognised` fails
+    while the other generated objects are still checked."""
+    try:
+        cfg = _format_cfg(tree)
+        cfg['recognised'] = True
+        cfg['reason'] = ''
+        return cfg
+    except TranslateError as e:
+        fn = next((n for n in tree.body if isinstance(n, ast.FunctionDef) and n.name == 'format_float'), None)
+        return {'places': 0, 'adds_zero': False, 'strips': False, 'neg_zero_fix': False, 'recognised': False,
+                'reason': str(e), 'digest': ast_digest(fn) if fn is not None else ''}
+
+
+def _format_cfg(tree: ast.Module) -> dict:
     fn = next((n for n in tree.body if isinstance(n, ast.FunctionDef) and n.name == 'format_float'), None)
     if fn is None:
         raise TranslateError('format_float not found')
@@ -419,6 +634,8 @@ def translate() -> tuple[str, dict]:
     text = src_text('math.py')
     tree = ast.parse(text)
     sites, info = angle_sites()
+    creations, cinfo = angle_creations(tree)
+    info.update(cinfo)
     cfg = format_cfg(tree)
     strs = str_templates(tree)
     muts = mutation_census(tree)
@@ -439,7 +656,14 @@ def translate() -> tuple[str, dict]:
         'Definition angle_sites : list (string * rhs) := [',
         ';\n'.join(f'  ({_s(w)}, {k})' for w, k, _ in sites),
         '].',
+        '(* every expression that creates an Angle/FrozenAngle object: (function, how its slots get written) *)',
+        'Definition angle_creations : list (string * creation) := [',
+        ';\n'.join(f'  ({_s(w)}, {k})' for w, k, _ in creations),
+        '].',
+        f'Definition to_angle_stores_all_slots : bool := {b(cinfo["stores_all_slots_on_every_path"]["MatrixBase._to_angle"])}.',
+        f'Definition angle_init_stores_all_slots : bool := {b(cinfo["stores_all_slots_on_every_path"]["Angle.__init__"])}.',
         '(* the format_float pipeline *)',
+        f'Definition format_float_recognised : bool := {b(cfg["recognised"])}.',
         f'Definition format_float_cfg : fmt_cfg := {{| adds_zero := {b(cfg["adds_zero"])}; places := {cfg["places"]}%N; '
         f'strips := {b(cfg["strips"])}; neg_zero_fix := {b(cfg["neg_zero_fix"])} |}}.',
         f'Definition str_uses_format_float : bool := {b(str_ok)}.',
@@ -449,7 +673,7 @@ def translate() -> tuple[str, dict]:
         '].',
         '',
     ]
-    side = {'angle_sites': [list(s) for s in sites], 'format_float': cfg, 'str_templates': strs,
+    side = {'angle_sites': [list(s) for s in sites], 'angle_creations': [list(c) for c in creations], 'format_float': cfg, 'str_templates': strs,
             'mut_events': [list(m) for m in muts], 'n_methods': len(meths), **info,
             'digests': {'parse_vec_str': _digest(tree, 'parse_vec_str'), 'format_float': cfg['digest']}}
     return '\n'.join(lines), side
